@@ -1444,7 +1444,11 @@ func deepChain(r *rng, leaf *rapid.Generator[any], levels int) (*rapid.Generator
 		case 1:
 			g, desc = rapid.Map(inner, func(v any) any { return v }), "Map("+desc+")"
 		case 2:
-			g, desc = rapid.Ptr(inner, false).AsAny(), "Ptr("+desc+")"
+			if i%2 == 0 {
+				g, desc = rapid.Ptr(inner, false).AsAny(), "Ptr("+desc+")"
+			} else {
+				g, desc = rapid.Ptr(inner, true).AsAny(), "PtrOrNil("+desc+")"
+			}
 		case 3:
 			g, desc = rapid.OneOf(inner), "OneOf("+desc+")"
 		case 4:
